@@ -83,7 +83,8 @@ inductive OpT where
   | facMigrate (min : Option Coin) (bps : Option Nat)
   /-- the minter's `migrate`, stored cw2 version `fromV` -/
   | migrate (fromV : Nat × Nat × Nat)
-  /-- environment: the open-edition `end_time` is now `stop` (`UpdateEndTime`; its acceptance rules are C04's) -/
+  /-- environment form of an `end_time` change (kept for replays of early round-3 files; `UpdateEndTime` itself is
+      `.base (.updateEnd ..)` = `PriceRules.updateEnd` since the base model has the operation) -/
   | envStop (stop : Option Nat)
   /-- any other message of the minter's `ExecuteMsg` (purge, shuffle, burn_remaining, update_per_address_limit,
       update_start_trading_time, mint_to, mint_for, …, from anybody): it does not touch the price state -/
